@@ -388,22 +388,6 @@ def _strings(case):
     }
 
 
-def model_lags(u):
-    """TEMPORARY (until the shared Quote model follows /repo 8d2b290, announced with agent/c01path):
-    a raw whitespace character beyond ASCII that survives the cleaning is escaped by the safe
-    unquoters of the code, not yet by Model/Quote.lean.  Such URLs get no model lines (the oracle
-    still runs on them)."""
-    from ural import infer_redirection
-    from ural.patterns import CONTROL_CHARS_RE
-
-    for v in (u, _g(infer_redirection, u), _g(infer_redirection, u.lower())):
-        if isinstance(v, str):
-            inner = CONTROL_CHARS_RE.sub("", v).strip()
-            if any(ord(c) > 0x7F and c.isspace() for c in inner):
-                return True
-    return False
-
-
 _tags = {}
 
 
@@ -416,7 +400,7 @@ def url_ops(case):
     from ural import ensure_protocol
 
     u, amp, inf, ss, sa = case["url"], case["amp"], case["infer"], case["ss"], case["sa"]
-    if not nc.in_model_alphabet(u) or model_lags(u):
+    if not nc.in_model_alphabet(u):
         return []
     ops = []
     tags = []
